@@ -28,6 +28,7 @@ func init() {
 		ruleBlindBlock(c, "C01.R12")
 		ruleShrinkReserve(c, "C01.R13")
 		ruleShortWrite(c, "C01.R14")
+		ruleK5(c, "C01.R15")
 	}
 }
 
